@@ -13,6 +13,13 @@ func C15(tier string) int {
 	rep.Set("rule", "BFS to closure over create/update/patch/delete through parent, plain child and extended child store; oracle = complete image + FindById/LoadById/QueryIds (id-ordered and sorted)/IterateIds/IterateValidIds through all three stores + parent index reads")
 	k := newKitchen("parent+children+indexes+fk", kFeat{orgs: true})
 	n := len(k.Ops())
+	// two operations in one transaction (e.g. create through the child store, then update through the parent)
+	kp := newKitchen("parent+children+indexes+fk; 2 ops per tx", kFeat{orgs: true})
+	pcfg := explore.Config{Programs: explore.Pairs(len(kp.Ops())), SkipRejectedPrefix: true, MaxDepth: 2}
+	if tier != "quick" {
+		pcfg.MaxDepth, pcfg.MaxTrans = 3, 20_000_000
+	}
+	runE1(rep, kp, pcfg)
 	if tier == "quick" {
 		runE1(rep, k, explore.Config{Programs: explore.SingleOps(n)})
 	} else {
